@@ -388,3 +388,32 @@ def walk_fragment(frag):
                               ast.ClassDef)):
                 continue
             stack.append(c)
+
+
+def forward(cfg, init, transfer, edge=None, meet=None, top=None):
+    """Generic forward dataflow.
+
+    transfer(node, in_state) -> out_state
+    edge(node, label, out_state) -> state propagated along that edge
+    meet(a, b) -> combined state;  *top* is the neutral element (unvisited)
+    Returns {node: in_state}.
+    """
+    ins = {n: top for n in cfg.nodes}
+    ins[cfg.entry] = init
+    work = [cfg.entry]
+    outs = {}
+    while work:
+        n = work.pop()
+        if ins[n] is top:
+            continue
+        out = transfer(n, ins[n])
+        outs[n] = out
+        for t, lab in cfg.succ[n]:
+            st = edge(n, lab, out) if edge else out
+            if st is top:
+                continue
+            new = st if ins[t] is top else meet(ins[t], st)
+            if new != ins[t]:
+                ins[t] = new
+                work.append(t)
+    return ins
